@@ -135,6 +135,10 @@ def run_schedule(case):
                 t.write_text(json.dumps({'key': k, 'value': INIT_VALUE}))
         elif case.get('fresh_dir'):
             target.parent.rmdir()          # a key that was never used: its shard directory does not exist yet
+        if case.get('leftover_tmp') and not case.get('fresh_dir'):
+            # what a writer killed between opening its write-aside file and publishing it left behind
+            content = {'empty': '', 'partial': '{"key": "the key", "val', 'complete': json.dumps({'key': keys[0], 'value': 77})}[case['leftover_tmp']]
+            target.with_name(f'tmp_{target.name}').write_text(content)
         tc.FileLock = lambda name='', *a, **k: CoopLock(sched, name, timeout=k.get('timeout', a[0] if a else -1))
 
         def pmkdir(self, *a, **k):
@@ -314,6 +318,11 @@ Definition conc_model (c : fstate * list (kind * nat) * list nat) : list (option
                  script=[0, 0, 0, 1, 1, 1, 1, 1, 1, 1, 1, 1, 1, 0, 0, 0, 0, 0, 0], then=[dict(kind='goc', obj=0), dict(kind='get', obj=0), dict(kind='goc', obj=1)]),
             dict(init='absent', callers=[dict(kind='get', obj=0), dict(kind='get', obj=1)], seed=16,
                  then=[dict(kind='goc', obj=1), dict(kind='get', obj=0), dict(kind='goc', obj=0), dict(kind='goc', obj=0, force=True), dict(kind='get', obj=1)]),
+            # a killed writer left its write-aside file behind (empty, torn, complete) and no entry
+            *[dict(init='absent', callers=cs, seed=20 + i, leftover_tmp=lt)
+              for i, lt in enumerate(('empty', 'partial', 'complete'))
+              for cs in ([dict(kind='goc', force=False), dict(kind='get')], [dict(kind='goc', force=False), dict(kind='goc', force=False)],
+                         [dict(kind='get'), dict(kind='goc', force=True)])],
             # two and three callers start at the same moment on a key that was never used (no directory yet)
             dict(init='absent', callers=[dict(kind='goc', force=False), dict(kind='goc', force=False)], seed=4, late_start=True,
                  fresh_dir=True, script=[0, 1, 0, 1]),
@@ -338,6 +347,8 @@ Definition conc_model (c : fstate * list (kind * nat) * list nat) : list (option
                             late_start=rng.random() < 0.5))
             if out[-1]['init'] == 'absent' and rng.random() < 0.5:
                 out[-1]['fresh_dir'] = True       # never-used key: the callers also race for its directory
+            if out[-1]['init'] == 'absent' and not out[-1].get('fresh_dir') and rng.random() < 0.3:
+                out[-1]['leftover_tmp'] = rng.choice(['empty', 'partial', 'complete'])
             if rng.random() < 0.4:                # cache objects of their own, and calls after the others have returned
                 for c in callers:
                     c['obj'] = rng.randrange(2)
